@@ -26,7 +26,8 @@ fn spec_valid(r: &[i16; 4], n: usize, off: usize, len: usize) -> bool {
         if r[0] <= 0 {
             ok = false;
         }
-        if off + len > i16::MAX as usize || (r[n - 1] as usize) < off + len {
+        let end = off.saturating_add(len);
+        if end > i16::MAX as usize || (r[n - 1] as usize) < end {
             ok = false;
         }
     }
@@ -63,7 +64,7 @@ fn c09_run_end_buffer_accepts_valid() {
 //@ tier: quick
 //@ expect_panics: yes
 //@ functions: arrow_buffer::RunEndBuffer::<i16>::new
-//@ bound: run ends / slice violating the predicate with len > 0 (not strictly increasing, non-positive first, slice beyond the last run end, empty run ends): the constructor never returns; unwind 7
+//@ bound: 0..=4 arbitrary i16 run ends, logical offset and length EVERY usize, violating the predicate with len > 0 (not strictly increasing, non-positive first, slice beyond the last run end or beyond the run-end type's range, empty run ends): the constructor never returns; unwind 7
 //@ stub: alloc::fmt::format -> empty String
 #[kani::proof]
 #[kani::unwind(7)]
@@ -73,8 +74,11 @@ fn c09_run_end_buffer_rejects_invalid() {
     let n: usize = kani::any();
     let off: usize = kani::any();
     let len: usize = kani::any();
-    kani::assume(n <= 4 && off <= 40 && len <= 40);
+    // offset and length are EVERY usize: nothing in the constructor loops over them, and bounds that do not fit
+    // the run-end type (offset + len > i16::MAX, or overflowing usize) must be rejected, not truncated
+    kani::assume(n <= 4);
     kani::assume(!spec_valid(&r, n, off, len));
+    kani::cover!(n == 1 && r[0] == i16::MAX && len > 0 && off.saturating_add(len) > i16::MAX as usize, "slice bound beyond the run-end type");
     kani::cover!(n == 3 && len > 0 && r[0] > 0 && r[0] < r[1] && r[1] < r[2], "only the slice bound is wrong");
     kani::cover!(n == 3 && r[1] == r[2], "duplicate run end");
     let reb = RunEndBuffer::new(ScalarBuffer::<i16>::from(r[..n].to_vec()), off, len);
